@@ -281,17 +281,17 @@ def run(ctx, scratch):
     rng = ctx.rng
     quick = ctx.tier == 'quick'
     nmax = 12 if quick else 40
-    scale = 1 if quick else 14
+    scale = 1 if quick else 18
 
     with Impl(scratch) as impl:
         run_witnesses(ctx, impl)
-        run_propagation(ctx, impl, rng, nmax, 420 * scale)
-        run_termination(ctx, impl, rng, 260 * scale)
-        run_diffusion(ctx, impl, rng, nmax, 220 * scale)
-        run_nn(ctx, impl, rng, nmax, 200 * scale)
-        run_pagerank(ctx, impl, rng, nmax, 70 * scale)
-        run_nnlinker(ctx, impl, rng, nmax, 140 * scale)
-        run_metrics(ctx, impl, rng, 350 * scale)
+        run_propagation(ctx, impl, rng, nmax, 330 * scale)
+        run_termination(ctx, impl, rng, 200 * scale)
+        run_diffusion(ctx, impl, rng, nmax, 170 * scale)
+        run_nn(ctx, impl, rng, nmax, 150 * scale)
+        run_pagerank(ctx, impl, rng, nmax, 50 * scale)
+        run_nnlinker(ctx, impl, rng, nmax, 110 * scale)
+        run_metrics(ctx, impl, rng, 260 * scale)
     with Impl(scratch) as impl2:
         run_label_range(ctx, impl2, rng, 24 * scale)
 
@@ -440,7 +440,7 @@ def run_propagation(ctx, impl, rng, nmax, count):
     exprs = [prop_expr(c, rowsl[i], oracles[i], FUEL if c['n_iter'] is None else c['n_iter'] + 1) for i, c in enumerate(cases)]
     model = coq_eval('c13p', IMPORTS, exprs, prelude=PRELUDE)
     # phase C: default n_iter; runs the model predicts not to return are confirmed on a few cases only
-    hang_budget = 2
+    hang_budget = 0   # runs the model predicts not to return are confirmed in run_termination only
     for i, c in enumerate(cases):
         if c['n_iter'] is not None:
             continue
@@ -533,7 +533,7 @@ def run_termination(ctx, impl, rng, count):
     exprs = [prop_expr(c, adjacency_rows(c['g']), [], FUEL) for c in cases]
     model = coq_eval('c13t', IMPORTS, exprs, prelude=PRELUDE)
     cyc = [i for i, mv in enumerate(model) if mv[0] == 'POutOfFuel']
-    confirm = set(cyc[:2])
+    confirm = set(cyc[:1])
     run_ok = [i for i, mv in enumerate(model) if mv[0] != 'POutOfFuel']
     run_ok = set(rng.sample(run_ok, min(len(run_ok), 60)))
     ctx.extra['default_n_iter_digraphs'] = dict(cases=len(cases), model_cycles=len(cyc), confirmed_on_impl=len(confirm))
@@ -546,7 +546,7 @@ def run_termination(ctx, impl, rng, count):
             continue
         if i not in confirm and i not in run_ok:
             continue
-        r = impl.call('c13', 'propagation', args, timeout=8 if i in confirm else 20)
+        r = impl.call('c13', 'propagation', args, timeout=5 if i in confirm else 20)
         ctx.traces += 1
         ctx.count('Propagation:default_n_iter_digraph', ('prop', args), True)
         if 'hang' in r:
